@@ -124,7 +124,7 @@ register("C17", module="schedchecks", fn="case_c17", replay="replay_c17", binari
          components={"real": REAL_WHOLE, "stub": STUB_WHOLE})
 
 register("C31", module="schedchecks", fn="case_c31", replay="replay_c31", binaries=("simplz",),
-         cases={"quick": 32, "thorough": 1200}, budget={"quick": 280, "thorough": 3300}, level="exploration",
+         cases={"quick": 40, "thorough": 1200}, budget={"quick": 280, "thorough": 3300}, level="exploration",
          rule="case = generated repository + 2-4 logical `plz build` invocations with overlapping requests (single targets, :all, //...), seed-chosen start offsets of 0-60 scheduling steps, optionally one request built beforehand; each invocation has its own BuildState, graph, parser, display and per-target flock handling, and the seeded scheduler decides the interleaving of every synchronisation and filesystem operation and every flock acquisition of all invocations; 3 (quick) / 8 (thorough) schedules per case; oracle: every invocation exits 0, requested outputs equal a single clean build, a target's command never runs twice at the same time, no deadlock; distinct_nontrivial = distinct schedule traces",
          assumptions=["the invocations share one OS process: package-level globals (filegroup builder memo, repo lock file handle, logging backend, metrics) are shared where real processes would each have their own; flock(2) semantics are real (separate open file descriptions conflict inside one process)", "half of the cases share one directory cache (the invocations are one checkout, so the per-target lock serialises their stores; concurrent stores from different checkouts are C12's known finding and are not exercised here)"],
          components={"real": REAL_WHOLE, "stub": STUB_WHOLE + ["process boundary between the concurrent invocations (they share one address space)"]})
